@@ -354,7 +354,7 @@ def raw_projection(raw, km: h5lib.KeyMap, tk: h5lib.Tokens, validate=None) -> Di
 def user_projection(mc, km: h5lib.KeyMap, tk: h5lib.Tokens) -> Dict[str, Any]:
     """The tree as the container interface shows it (keys/[]/attrs/visititems/len/in)."""
     p = h5lib.project(mc, km, tk)
-    extra: List[str] = []
+    extra: List[str] = list(p.get("memb", []))     # in / get / [] agree with the listing, for listed and unlisted paths
 
     def chk(g, segs):
         ks = list(g.keys())
